@@ -19,7 +19,8 @@ import zipfile
 from hypothesis import strategies as st
 
 INTS = {"zero": 0, "one": 1, "max31": 0x7FFFFFFF, "max32": 0xFFFFFFFF, "neg1": -1, "big": 0x7FFFFFFFFFFFFFFF, "mid": 0x10000}
-XML_KINDS = ["unbalanced", "huge-attr", "wrong-ns", "entity", "deep", "bad-utf8", "empty", "no-root", "text-bomb", "doctype"]
+_NUMBER_KINDS = {"number-huge": b"1000000000000000", "number-negative": b"-1", "number-float": b"1e308", "number-nan": b"NaN", "number-2p31": b"2147483648"}
+XML_KINDS = ["unbalanced", "huge-attr", "wrong-ns", "entity", "deep", "bad-utf8", "empty", "no-root", "text-bomb", "doctype"] + sorted(_NUMBER_KINDS)
 
 
 DICTS = {
@@ -133,6 +134,10 @@ def _xml_damage(xml: bytes, kind: str) -> bytes:
         return b""
     if kind == "no-root":
         return b'<?xml version="1.0"?>'
+    if kind in _NUMBER_KINDS:
+        # container-aware: every decimal attribute value (counts, sizes, indexes) becomes one extreme number
+        import re as _re
+        return _re.sub(rb'="\d{1,9}"', b'="' + _NUMBER_KINDS[kind] + b'"', xml)
     if kind == "text-bomb":
         i = xml.rfind(b"</")
         return xml[:i] + b"Z" * 300000 + xml[i:] if i > 0 else xml
@@ -148,6 +153,8 @@ def _zip_mutate(data: bytes, r: dict, others):
     if not infos:
         return data
     idx = min(len(infos) - 1, int(r["member"] * len(infos)))
+    if r.get("name") is not None:      # deterministic sweeps address the member by name
+        idx = next((i for i, zi in enumerate(infos) if zi.filename == r["name"]), idx)
     buf = io.BytesIO()
     with zipfile.ZipFile(buf, "w") as out:
         for i, zi in enumerate(infos):
